@@ -309,7 +309,38 @@ func streamCli(o *Out, r *rand.Rand, n int, thorough bool) {
 	fileCases = append(fileCases, struct {
 		name   string
 		script string
+	}{"import-resolved-when-evaluated", "println(\"start\")\nencode = nil\ntry {\nyaml = import(\"encoding/yaml\")\nencode = yaml.Marshal\n} catch e {\nprintln(\"no yaml\")\njson = import(\"encoding/json\")\nencode = json.Marshal\n}\nb, err = encode(args)\nprintln(toString(b))\nif len(args) > 5 {\npprof = import(\"runtime/pprof\")\n}\nfunc never() {\nreturn import(\"no/such\")\n}\nprintln(\"done\")"}, struct {
+		name   string
+		script string
+	}{"output-before-failing-import", "println(\"before\")\nx = import(\"no/such/package\")\nprintln(\"after\")"}, struct {
+		name   string
+		script string
 	}{"log-package", "log = import(\"log\")\nlog.Println(\"to-the-log\")\nprintln(\"to-stdout\")\nlog.Printf(\"%d-again\", 2)\nprintln(\"end\")"})
+	// a script that asks for the interrupt signal itself (bundled os/signal), sends it to its own process and finishes its
+	// work: the tool must not end the run underneath it. Expectation stated here (the library run would signal this process).
+	{
+		script := "os = import(\"os\")\nsignal = import(\"os/signal\")\ntime = import(\"time\")\ninterrupted = make(chan os.Signal, 1)\nsignal.Notify(interrupted, os.Interrupt)\nself, err = os.FindProcess(os.Getpid())\n" +
+			"done = 0\nfor done < 3 {\ndone++\nprintln(\"unit\", done)\n}\nself.Signal(os.Interrupt)\nsig = <-interrupted\nprintln(\"received\", sig)\ntime.Sleep(30 * time.Millisecond)\nprintln(\"summary:\", done)"
+		path := filepath.Join(tmp, "sigint.ank")
+		_ = os.WriteFile(path, []byte(script), 0o644)
+		for _, form := range [][]string{{path}, {"-e", script}} {
+			cmd := exec.Command(bin, form...)
+			var stdout, stderr bytes.Buffer
+			cmd.Stdout, cmd.Stderr = &stdout, &stderr
+			runErr := cmd.Run()
+			exit := 0
+			if ee, ok := runErr.(*exec.ExitError); ok {
+				exit = ee.ExitCode()
+			}
+			o.Sum.Evaluations++
+			o.Sum.Hist["own-interrupt-handler"]++
+			want := "unit 1\nunit 2\nunit 3\nreceived interrupt\nsummary: 3\n"
+			if exit != 0 || stdout.String() != want {
+				o.Fail(Failure{Oracle: "cli-verdict-agrees", Key: "cli-own-interrupt-handler", Input: fmt.Sprintf("[%s form] %q", map[bool]string{true: "-e", false: "file"}[form[0] == "-e"], script),
+					Detail: fmt.Sprintf("vm.Execute lets the script receive its own interrupt and finish (prints %q, no error); the binary exited %d after printing %q", want, exit, stdout.String())})
+			}
+		}
+	}
 	cwd0, _ := os.Getwd()
 	for k, fc := range fileCases {
 		wd := filepath.Join(tmp, fmt.Sprintf("wd%d", k))
